@@ -160,6 +160,12 @@ pub fn run(rep: &mut Report, backend: Bk, thorough: bool) {
         let c = step(&w, z, Action::Deliver(remove_z)).client;
         states.push(("inactive-evicted", c));
     }
+    {
+        // C's message stored, then A's commit applied: late events of the previous epoch and ids of stored messages meet this state
+        let c = step(&w, z, Action::Deliver(msg_i)).client;
+        let c = step(&w, &c, Action::Deliver(commit_i)).client;
+        states.push(("message-stored-next-epoch", c));
+    }
     if thorough {
         let c = step(&w, z, Action::Deliver(commit_i)).client;
         states.push(("next-epoch", c));
@@ -218,6 +224,11 @@ pub fn run(rep: &mut Report, backend: Bk, thorough: bool) {
         ("json-negative-time", format!(r#"{{"pubkey":"{}","created_at":-5,"kind":9,"tags":[],"content":"t"}}"#, w.nodes[&vec![]].clients["X"].pk().to_hex()).into_bytes()),
     ];
     let sender_x = w.nodes[&vec![]].clients["X"].fork();
+    // a well-formed rumor of X's own whose pre-set id is the id of C's message (which the receiver stores in some states)
+    let mut payloads = payloads;
+    if let Some(victim) = w.pool[msg_i].rumor.as_ref().and_then(|r| r.id) {
+        payloads.push(("json-id-of-a-stored-message", format!(r#"{{"id":"{}","pubkey":"{}","created_at":{},"kind":9,"tags":[],"content":"filed under another message's id"}}"#, victim.to_hex(), w.nodes[&vec![]].clients["X"].pk().to_hex(), now_ts - 7).into_bytes()));
+    }
     for (label, p) in &payloads {
         let s = sender_x.fork();
         match app_message(&s, &gid, p, now_ts - 5) {
